@@ -466,6 +466,7 @@ fn vp_native_redirect_matrix() {
                 "schemerel" => format!("//127.0.0.1:{}{}", port, next),
                 "path" => next.clone(),
                 "rel" => format!("../../{}/{}/x", n - 1, form),
+                "relq" => format!("../../{}/{}/x?from={}", n - 1, form, n),
                 "dot" => format!("./../.././{}/{}/./y/../x", n - 1, form),
                 "frag" => format!("{}#sec-{}", next, n),
                 _ => next.clone(),
@@ -478,8 +479,9 @@ fn vp_native_redirect_matrix() {
     let s = { let mut s = crate::Session::new(); s.proxy_settings(crate::ProxySettings::builder().build()); s };
     let mut cases = 0u64;
     for status in [300u16, 301, 302, 303, 304, 305, 306, 307, 308, 399] { for n in 0u32..4 { for max in [0u32, 1, 2, 5] {
-        for form in ["abs", "schemerel", "path", "rel", "dot", "frag", "query"] { for follow in [true, false] {
+        for form in ["abs", "schemerel", "path", "rel", "relq", "dot", "frag", "query"] { for follow in [true, false] {
             let (start, last) = if form == "query" { (format!("{}/q/{}/x?h={}", base, status, n), format!("{}/q/{}/x?h=0", base, status)) }
+                                else if form == "relq" { (format!("{}/c/{}/{}/{}/x?start=1", base, status, n, form), if n == 0 { format!("{}/c/{}/0/{}/x?start=1", base, status, form) } else { format!("{}/c/{}/0/{}/x?from=1", base, status, form) }) }
                                 else { (format!("{}/c/{}/{}/{}/x", base, status, n, form), format!("{}/c/{}/0/{}/x", base, status, form)) };
             seen.lock().unwrap().clear();
             let res = s.get(&start).max_redirections(max).follow_redirects(follow).send();
@@ -542,7 +544,7 @@ fn vp_native_redirect_across_no_proxy_boundary() {
 #[test]
 fn vp_native_body_delivered_as_it_arrives() {
     let mut cases = 0u64;
-    for framing in ["length", "close"] { for k in [0usize, 1, 2, 5, 9] { for bsize in [1usize, 3, 9, 10, 16, 8192] {
+    for framing in ["length", "close", "chunked-1", "chunked-2"] { for k in [0usize, 1, 2, 5, 9] { for bsize in [1usize, 3, 9, 10, 16, 8192] {
         if k == 0 && bsize != 1 { continue; }
         let l = TcpListener::bind("127.0.0.1:0").unwrap();
         let port = l.local_addr().unwrap().port();
@@ -552,8 +554,15 @@ fn vp_native_body_delivered_as_it_arrives() {
             if let Ok((mut s, _)) = l.accept() {
                 let mut r = BufReader::new(s.try_clone().unwrap());
                 loop { let mut h = String::new(); if r.read_line(&mut h).unwrap_or(0) == 0 || h == "\r\n" { break; } }
-                let head = if framing == "length" { "HTTP/1.1 200 OK\r\nContent-Length: 10\r\n\r\n" } else { "HTTP/1.1 200 OK\r\n\r\n" };
-                s.write_all(head.as_bytes()).ok(); s.write_all(&sent).ok(); s.flush().ok();
+                let head = match framing { "length" => "HTTP/1.1 200 OK\r\nContent-Length: 10\r\n\r\n", "close" => "HTTP/1.1 200 OK\r\n\r\n", _ => "HTTP/1.1 200 OK\r\nTransfer-Encoding: chunked\r\n\r\n" };
+                s.write_all(head.as_bytes()).ok();
+                if framing.starts_with("chunked") {
+                    // the k bytes that "arrived" are complete chunks (one chunk, or two); the next size line is held back or cut
+                    let cut = if framing == "chunked-2" && sent.len() > 1 { sent.len() / 2 } else { sent.len() };
+                    for part in [&sent[..cut], &sent[cut..]] { if !part.is_empty() { s.write_all(format!("{:x}\r\n", part.len()).as_bytes()).ok(); s.write_all(part).ok(); s.write_all(b"\r\n").ok(); } }
+                    if sent.len() % 2 == 1 { s.write_all(b"5").ok(); }   // a size line that has only started
+                } else { s.write_all(&sent).ok(); }
+                s.flush().ok();
                 std::thread::sleep(std::time::Duration::from_millis(2500));   // the server pauses "indefinitely"
             }
         });
@@ -616,6 +625,23 @@ fn vp_native_connect_refusals() {
                 other => panic!("CONNECT answered {} must give ConnectError, got {:?} ({})", status, other.map(|_| ()), ctx),
             }
         }
+    }
+    // 2xx replies: only now the TLS handshake starts, and it names the origin, not the proxy
+    for status in [200u16, 201, 299] {
+        let log = Arc::new(Mutex::new(Vec::new()));
+        let proxy = serve(log.clone(), move |_, _| format!("HTTP/1.1 {} Connection established\r\n\r\n", status).into_bytes());
+        let mut s = crate::Session::new();
+        s.proxy_settings(crate::ProxySettings::builder().https_proxy(Url::parse(&format!("http://pu:pw@localhost:{}", proxy)).unwrap()).build());
+        let e = s.post("https://origin-name.test:8443/secret").header("Authorization", "Bearer tok").text("topsecret").send(); cases += 1;
+        assert!(e.is_err(), "the fake proxy never completes a TLS handshake");
+        std::thread::sleep(std::time::Duration::from_millis(500));
+        let seen = log.lock().unwrap().clone();
+        assert_eq!(seen.len(), 1);
+        let after = &seen[0].raw_after_head;
+        assert!(after.first() == Some(&0x16), "after a {} reply the client must start a TLS handshake with the tunnel, it sent {:?}", status, &after[..after.len().min(16)]);
+        let hay = String::from_utf8_lossy(after).to_string();
+        assert!(hay.contains("origin-name.test"), "the TLS handshake must name the origin (SNI)");
+        for leak in ["localhost", "topsecret", "Bearer tok", "pu:pw", "/secret"] { assert!(!hay.contains(leak), "{:?} sent in clear inside the tunnel setup", leak); }
     }
     // reply heads that are truncated or garbage: an error, and nothing further is sent
     for junk in [&b""[..], b"HTTP/1.1 200", b"HTTP/1.1 200 OK\r\n", b"HTTP/1.1 200 OK\r\nX: y", b"HTTP/1.1 200 OK\r\nX: y\r\n", b"HTTP/1.1 200 OK\r\nX: y\r\nZ: w\r\n", b"HTTP/1.1 200 OK\r\nX: y\r",
